@@ -126,4 +126,16 @@ static verif_div_t verif_div(int n, int d)
   r.rem = n % d;
   return r;
 }
+
+/* ---- std::vector<char>::push_back on a short vector; toupper/tolower in the C locale (axioms, cross-checked
+        natively over 0..255 by setup.sh) ----------------------------------------------------------------- */
+struct charvec { unsigned n; char d[8]; };
+static void charvec_push(struct charvec *v, char c)
+{
+  __CPROVER_assert(v->n < 8, "model: at most 8 characters are appended per wildcard character");
+  if (v->n < 8) v->d[v->n] = c;
+  v->n++;
+}
+static int verif_toupper(int c) { return (c >= 'a' && c <= 'z') ? c - 32 : c; }
+static int verif_tolower(int c) { return (c >= 'A' && c <= 'Z') ? c + 32 : c; }
 #endif
